@@ -71,13 +71,17 @@ def make_world(rng):
     # where a user keeps things: sub-directories, spaces, non-ASCII (the suffixes .s/.o are kept: the
     # harness tells listings from objects by them)
     d_in = rng.choice(["", "", "inputs/sub dir/", "d\u00e9p\u00f4t/"])
-    d_rules = rng.choice(["", "", "my rules/", "r/u/l/"])
+    d_rules = rng.choice(["", "my rules/", "r/u/l/"])
     d_mac = rng.choice(["", "", "mac ros/"])
     listings = []
     for i in range(rng.randrange(2, 4)):
         text, _ins = gen.gen_listing(rng, n=rng.randrange(10, 40), branch_targets=targets)
         files[f"{d_in}a{i}.s"] = text
         listings.append(f"{d_in}a{i}.s")
+    if rng.random() < 0.5:
+        text, _blk = gen.gen_listing_repeated(rng)
+        files[f"{d_in}a_rep.s"] = text
+        listings.append(f"{d_in}a_rep.s")
     binaries = []
     binmeta = {}
     for j in range(rng.choice((1, 2, 2))):
@@ -229,6 +233,25 @@ def make_world(rng):
             for vname, body in (("layer_ok", body_ok), ("layer_bad", body_bad), ("layer_alt", (alt or [body_bad])[0])):
                 add("macro", vname, {"macros": [inner(body)], "pattern": [items[0], "@outer", items[2]]}, li, macros=[d_mac + "m_layer.yaml"])
                 add("macro", vname + "2", {"macros": [inner(body)], "pattern": ["@outer2", items[2]]}, li, macros=[d_mac + "m_layer.yaml"])
+
+    # ---- files with the same names beside the rules: what a lookup relative to the rule's directory
+    #      (instead of the working directory) would pick up
+    if d_rules:
+        mnames = sorted(macro_docs)
+        for i, mf in enumerate(mnames):
+            other = mnames[(i + 1) % len(mnames)] if len(mnames) > 1 else None
+            files[d_rules + mf] = files[other] if other else gen.dump_yaml({"macros": [{"name": "@mm", "pattern": "fxsave"}]})
+        for i, li in enumerate(listings):
+            files[d_rules + li] = files[listings[(i + 1) % len(listings)]] if len(listings) > 1 else "\n"
+
+    # ---- scalars whose meaning depends on YAML's implicit typing (unquoted hex / binary / octal ints, yes/no booleans)
+    if listings:
+        li = rng.choice(listings)
+        for vname, raw in (("hex_operand", "pattern:\n- mov:\n  - 0x10\n"), ("hex_operand2", "pattern:\n- $or:\n  - add:\n    - 0x8\n  - sub:\n    - 0x16\n"),
+                           ("yes_flag", "config:\n  mnemonics-full-match: yes\n  operands-full-match: no\npattern:\n- mo\n"),
+                           ("bin_times", "pattern:\n- push:\n    times: 0b10\n"), ("oct_times", "pattern:\n- call:\n    times: 02\n"),
+                           ("underscore_int", "pattern:\n- mov:\n  - 1_6\n"), ("null_plugins", "config:\n  plugins: ~\npattern:\n- ret\n")):
+            add("yamltypes", vname, None, li, raw=raw)
 
     # ---- plain rules built with the full feature mix
     for li in listings:
